@@ -18,27 +18,29 @@ from .choices import Choices
 from .loop import SimLoop
 from .net import ServerCrashed, ServerNode
 from .ref import jsonrpc as R
-from .service import BODIES, EXC_CLASS_NAMES, MARKER, NODATA, SIGNATURES, VALIDATED, ProtoFailure, Service
+from .service import BODIES, EXC_CLASS_NAMES, INTERNAL, MARKER, NODATA, SIGNATURES, VALIDATED, ProtoFailure, Service
 from .stack import ensure_loop, fresh_loop
 from .world import World
 
-METHOD_MODELS = {name: R.MethodModel(SIGNATURES[name], BODIES[name], VALIDATED[name][1] if name in VALIDATED else None)
+METHOD_MODELS = {name: R.MethodModel(SIGNATURES[name], BODIES[name], VALIDATED[name][1] if name in VALIDATED else None,
+                                     internal=name in INTERNAL)
                  for name in BODIES}
 
 ELEMENT_IDS: List[Any] = [1, 0, -1, 2, 3, 'abc', '', '1', 2 ** 62, 'id-é', 7, '0', -7, 'x']
 
 
 # --- documents -----------------------------------------------------------------------------------------------------
-def gen_element(ch: Choices, tok: str, id_: Any, notification: bool) -> Tuple[Dict[str, Any], str]:
+def gen_element(ch: Choices, tok: str, id_: Any, notification: bool, exotic: bool = False) -> Tuple[Dict[str, Any], str]:
     """One request element (a JSON object) and its kind."""
-    kind = ['ok', 'unknown', 'nobind', 'proto', 'exc', 'invalid', 'novalidate'][ch.weighted([6, 2, 3, 3, 3, 2, 2], 'el.kind')]
+    kind = ['ok', 'unknown', 'nobind', 'proto', 'exc', 'invalid', 'novalidate', 'internal'][
+        ch.weighted([6, 2, 3, 3, 3, 2, 2, 1], 'el.kind')]
     if kind in ('ok', 'proto', 'exc'):
         c = None
         for _ in range(8):
             c = gen.logical_call(ch, tok, allow_fail=kind != 'ok', allow_notification=False,
-                                 extra_codes=(0,), extra_messages=('',))
+                                 extra_codes=(0,), extra_messages=('',), exotic=exotic)
             is_fail = c.method.startswith('fail')
-            if (kind == 'ok' and not is_fail) or (kind == 'proto' and c.method == 'fail_proto') or \
+            if (kind == 'ok' and not is_fail) or (kind == 'proto' and c.method in ('fail_proto', 'fail_typed')) or \
                     (kind == 'exc' and c.method == 'fail_exc'):
                 break
         assert c is not None
@@ -56,6 +58,8 @@ def gen_element(ch: Choices, tok: str, id_: Any, notification: bool) -> Tuple[Di
         ], 'el.nobind')
         if not el['params'] and ch.draw(2, 'el.noparams'):
             del el['params']
+    elif kind == 'internal':
+        el = {'jsonrpc': '2.0', 'method': 'explode', 'params': [tok]}
     elif kind == 'novalidate':
         # binds to the signature but does not satisfy the schema attached to the method
         if ch.flag(1, 3, 'el.novalidate.default'):
@@ -97,7 +101,8 @@ JUNK_TEXTS = ['', ' ', '{', '[', '}', 'nul', '{"jsonrpc": "2.0", "method": "echo
               '{"jsonrpc": "2.0", "method": "echo", "id": 01}', '--1', '0x10', '{"id": 1}}', 'undefined']
 
 
-def gen_document(ch: Choices, max_len: int = 5, allow_junk: bool = True, tok_prefix: str = '') -> Dict[str, Any]:
+def gen_document(ch: Choices, max_len: int = 5, allow_junk: bool = True, tok_prefix: str = '',
+                 exotic: bool = False) -> Dict[str, Any]:
     """A request text plus a description.  {'text', 'shape', 'kinds', 'doc'}"""
     shape = ['single', 'batch', 'junk_text', 'nonobject', 'empty_batch'][
         ch.weighted([5, 8, 1 if allow_junk else 0, 1 if allow_junk else 0, 1 if allow_junk else 0], 'doc.shape')]
@@ -115,7 +120,7 @@ def gen_document(ch: Choices, max_len: int = 5, allow_junk: bool = True, tok_pre
     all_notif = shape == 'batch' and ch.flag(1, 8, 'doc.all_notifications')
     for k in range(n):
         notification = all_notif or ch.flag(1, 4, 'el.notification')
-        el, kind = gen_element(ch, f'{tok_prefix}t{k}', ids[k], notification)
+        el, kind = gen_element(ch, f'{tok_prefix}t{k}', ids[k], notification, exotic)
         els.append(el)
         kinds.append(kind + ('.n' if 'id' not in el or el.get('id') is None else ''))
     if shape == 'batch' and n >= 2 and ch.flag(1, 6, 'doc.dup_id'):
@@ -309,6 +314,8 @@ def draw_config(ch: Choices, doc_len: int = 1, middlewares: bool = False, handle
     if middlewares:
         cfg['middlewares'] = [ch.choice(MW_KINDS, 'srv.mw.kind') for _ in range(ch.draw(4, 'srv.mw.n'))]
         cfg['mw_plain'] = [ch.flag(1, 3, 'srv.mw.plain') for _ in cfg['middlewares']]
+        # how the user hands the middlewares over: any iterable is allowed, also a one-shot one
+        cfg['mw_iterable'] = ch.choice(['list', 'tuple', 'generator', 'iterator'], 'srv.mw.iterable')
     if handlers:
         shape = ch.choice(['none', 'generic', 'per_code', 'both', 'several', 'replace'], 'srv.eh.shape')
         table: Dict[str, List[Tuple[str, str]]] = {}
@@ -357,7 +364,10 @@ class ServerUnderTest:
         for key, hs in cfg['handlers'].items():
             table[None if key == 'none' else int(key)] = [make_error_handler(w, node, hid, kind, is_async)
                                                            for hid, kind in hs]
-        kwargs: Dict[str, Any] = dict(middlewares=mws, error_handlers=table, max_batch_size=cfg['max_batch_size'])
+        how = cfg.get('mw_iterable', 'list')
+        mws_arg: Any = mws if how == 'list' else tuple(mws) if how == 'tuple' else \
+            (m for m in mws) if how == 'generator' else iter(mws)
+        kwargs: Dict[str, Any] = dict(middlewares=mws_arg, error_handlers=table, max_batch_size=cfg['max_batch_size'])
         if is_async and 'concurrent_batch' in cfg:
             kwargs['concurrent_batch'] = cfg['concurrent_batch']
         if extra_kwargs:
